@@ -54,8 +54,8 @@ Example boundary_strings :
 Proof. vm_compute. repeat split; reflexivity. Qed.
 
 (* ---------- what the correspondence check relies on ---------- *)
-(* The run-time oracle p_c13 (ChkX.v, clauses 5-8: a malformed response fails the call, keeps no write, dispatches nothing; a well-formed one
-   surfaces verbatim) accepts the model's own run of EVERY well-formed scenario, in every case
+(* The run-time oracle p_c13 (ChkX.v, clauses 5-9: a malformed response fails the call, keeps no write, dispatches nothing; a well-formed one
+   surfaces verbatim and, for a leaf program whose body ran, makes the call succeed) accepts the model's own run of EVERY well-formed scenario, in every case
    environment: an implementation that behaves exactly like the model is never flagged, and "agrees with the model"
    implies "satisfies the oracle's reading of C13".
    Premise [wf_scenario] (ExecOracle.v) is what the generator guarantees (harness/exec_common/src/gen.rs): in every
